@@ -159,6 +159,12 @@ def run_async(sc, max_rounds=120):
             from . import fakedask
             fakedask.install(fakedask.FakeClient(lp, rec, sc['dask']))
         build_graph(ctx, {'asynchronous': True})
+        async def attach_later(n):
+            await asyncio.sleep(n['attach_at'])
+            build_graph(ctx, {'asynchronous': True}, late=n['id'])
+        for n in sc['graph']:
+            if 'attach_at' in n:
+                asyncio.ensure_future(attach_later(n))
         pre = {}
         if sc.get('emit_at_once'):
             # the first element is pushed in the same step that built the graph - before any callback the
